@@ -187,8 +187,19 @@ func overlayOutputFile(srcPath, dstPath string) map[string][]byte {
 		return nil
 	}
 	absDst, err := filepath.Abs(dstPath)
-	if err != nil || filepath.Dir(absSrc) != filepath.Dir(absDst) {
+	if err != nil {
 		return nil
+	}
+	// The output path may name the setup file's directory by another spelling (through a
+	// symbolic link). What counts is the directory itself, and the go command knows its files
+	// by the name under which the package is loaded.
+	if srcDir, dstDir := filepath.Dir(absSrc), filepath.Dir(absDst); srcDir != dstDir {
+		srcDirStat, err1 := os.Stat(srcDir)
+		dstDirStat, err2 := os.Stat(dstDir)
+		if err1 != nil || err2 != nil || !os.SameFile(srcDirStat, dstDirStat) {
+			return nil
+		}
+		absDst = filepath.Join(srcDir, filepath.Base(absDst))
 	}
 	file, err := parser.ParseFile(token.NewFileSet(), srcPath, nil, parser.PackageClauseOnly)
 	if err != nil || file.Name == nil {
